@@ -142,7 +142,7 @@ theorem adjacent_apart_iff_pairwise (l : List Period) (hv : ∀ p ∈ l, p.1 ≤
         · exact hab
         · have hbx : b.2 < x.1 := (List.pairwise_cons.mp hp).1 x hx
           have hb := hv b (by simp)
-          rw [Date.lt_iff] at *; rw [Date.le_iff] at hb; omega
+          rw [Date.lt_iff_sel] at *; rw [Date.le_iff] at hb; omega
       · intro h
         have h' := List.pairwise_cons.mp h
         exact ⟨h'.1 b (by simp), h'.2⟩
